@@ -77,6 +77,18 @@ PROPS = {
             enum("fast", ["props/C14_enum.cpp"], qs=0, ts=16, lib="fast", cxxflags=["-DVP_FAST", "-O2"]),
         ],
     ),
+    "C15": dict(
+        level="exploration",
+        exhaustive_possible=True,
+        rule="cases are (accessor, alignment offset, value) triples judged by octet arithmetic (set: stored octets, neighbours, returned pointer; ref: value from the expected image), "
+             "plus swap and range-predicate inputs; non-trivial = a value whose octets are pairwise distinct or that has the top bit of a middle octet or the width's sign bit set; distinct by (value, accessor)",
+        assumptions=COMMON_ASSUME + ["native order is little-endian on this host; the big-endian-host branches are not exercised"],
+        targets=[
+            enum("enum", ["props/C15_enum.cpp", "shims/bf_table.c"], qs=8, ts=16, cflags=["-DCXX_ALLOW_TYPE_PUNNING"]),
+            enum("noswap", ["props/C15_enum.cpp", "shims/bf_table.c"], qs=8, ts=16, noswap=True),
+            enum("fast", ["props/C15_enum.cpp", "shims/bf_table.c"], qs=0, ts=16, lib="fast", cxxflags=["-DVP_FAST", "-O2"], cflags=["-O2"]),
+        ],
+    ),
 }
 
 NOTE_COMMON = ("trusted: clang/ASan/UBSan, the harness and its reference model; the search is bounded (see evidence: tier bounds and counts); "
@@ -112,6 +124,14 @@ MANIFEST_TEXT = {
         level_text="Every encoder and both decoders of all four kinds are compared with an independent LEB128 reference: exhaustively for all short octet strings over "
                    "an adversarial alphabet (each placed so that the heap block ends at every truncation point) and, in the thorough tier, for all 2^32 32-bit values; "
                    "64-bit values are covered at every 7-bit boundary, single bits and by random sampling.",
+        level_note=NOTE_COMMON,
+    ),
+    "C15": dict(
+        engine="enum",
+        technique="exhaustive enumeration for 16/24-bit (thorough: 32-bit) values, lane/bit/boundary/random values for wider widths, against an octet-arithmetic reference; both swap configurations",
+        level_text="All 126 accessors, the 7 swaps and the 8 range predicates are tabulated behind uniform function pointers (compiled with and without UFW_USE_BUILTIN_SWAP) and compared "
+                   "with octet arithmetic: stored octets, untouched neighbours (canary prefix + ASan-exact block end), returned pointer, loaded value incl. sign extension and float bit identity. "
+                   "Exhaustive for widths 16/24 (and 32 in the thorough tier); wider widths by lanes x octet values, single bits, edges and random values.",
         level_note=NOTE_COMMON,
     ),
 }
